@@ -17,7 +17,7 @@ use std::sync::{Arc, Condvar, Mutex};
 use std::time::Duration;
 use tokio::io::{AsyncRead, AsyncWrite, AsyncWriteExt};
 
-pub const RULE: &str = "exit cause {clean Close, abrupt loss, text frame, unmasked/garbage WebSocket frame, malformed REPE frame (bad magic / trailing bytes), inline handler panic, connect-callback panic (first / second hook), embedder cancellation, drain-deadline abort, failed handshake (wrong path / non-HTTP bytes)} x phase {idle, inline handler running, off-reader handler parked, outbound queue non-empty (client not reading)} x 1..32 concurrent connections x entry point {serve_listener accept loop over TCP, serve_connection over an adopted duplex stream, serve_connection_with_cancel, serve_listener_with_graceful_drain}; with a PeerRegistry and an alias attached in a connect hook; oracle per accepted connection: the disconnect callback count is exactly 1 once the connection ended (0 for failed handshakes, and it never becomes 2), the peer and its alias resolve from inside connect hooks (after the insert), from inside handlers and just before the exit trigger, and no longer resolve afterwards, the two notifies queued by the connect callbacks are the first frames the client sees, in order, before the response to a request the client sent first, and every parked off-reader handler observes cancellation within the watchdog; non-trivial = exit cause != clean close, or phase != idle; distinct = case hash";
+pub const RULE: &str = "exit cause {clean Close, abrupt loss, text frame, unmasked/garbage WebSocket frame, malformed REPE frame (bad magic / trailing bytes), inline handler panic, connect-callback panic (first / second hook), embedder cancellation, drain-deadline abort, failed handshake (wrong path / non-HTTP bytes)} x phase {idle, inline handler running, off-reader handler parked, outbound queue non-empty (client not reading), reader parked handing a response to the full outbound queue} x 1..32 concurrent connections x entry point {serve_listener accept loop over TCP, serve_connection over an adopted duplex stream, serve_connection_with_cancel, serve_listener_with_graceful_drain}; with a PeerRegistry and an alias attached in a connect hook; oracle per accepted connection: the disconnect callback count is exactly 1 once the connection ended (0 for failed handshakes, and it never becomes 2), the peer and its alias resolve from inside connect hooks (after the insert), from inside handlers and just before the exit trigger, and no longer resolve afterwards, the two notifies queued by the connect callbacks are the first frames the client sees, in order, before the response to a request the client sent first, and every parked off-reader handler observes cancellation within the watchdog; after an embedder cancellation with an unread backlog the client keeps not reading until the hooks and the registry were checked; (cancel-early) cancellation 0..3000 us after serve_connection_with_cancel started (0 = token already cancelled): connect and disconnect callbacks each ran exactly once for the same peer, registry empty; non-trivial = exit cause != clean close, or phase != idle; distinct = case hash";
 
 #[derive(Debug, Clone, Copy, Serialize, Deserialize, Hash, PartialEq, Eq)]
 pub enum Cause {
@@ -39,6 +39,9 @@ pub enum Phase {
     InlineRunning,
     OffReaderParked,
     OutboundBacklog,
+    /// the outbound queue is full, the client is not reading, and the reader is parked
+    /// handing an inline response to the queue
+    ReaderParked,
 }
 
 #[derive(Debug, Clone, Copy, Serialize, Deserialize, Hash, PartialEq, Eq)]
@@ -269,12 +272,19 @@ where
             let ok = tokio::task::spawn_blocking(move || e.wait_set(&e.off_started, i, watchdog())).await.unwrap();
             ensure!(ok, "handler-not-started", "[{tag}] off-reader handler did not start");
         }
-        Phase::OutboundBacklog => {
+        Phase::OutboundBacklog | Phase::ReaderParked => {
             // fill the outbound queue while the client is not reading
             if let Some(p) = peers.get(PeerId(id)) {
                 for _ in 0..400 {
                     let _ = p.send_notify("/flood", NotifyBody::Raw(vec![7u8; 2048], BodyFormat::RawBinary));
                 }
+            }
+            if sc.phase == Phase::ReaderParked {
+                // inline requests behind the full queue: the reader blocks handing over the first response
+                for k in 0..3u64 {
+                    io.send(&frame_with(40 + k, 0, b"/ping", 1, b"null", 2, 0)).await.map_err(|e| Fail::new("harness-send", e.to_string()))?;
+                }
+                tokio::time::sleep(Duration::from_millis(30)).await;
             }
         }
     }
@@ -288,7 +298,7 @@ where
     let mut io_opt = Some(io);
     match sc.cause {
         Cause::CleanClose => {
-            if sc.phase == Phase::OutboundBacklog {
+            if matches!(sc.phase, Phase::OutboundBacklog | Phase::ReaderParked) {
                 // a Close handshake needs the client to read; send the Close frame and then read on
                 let io = io_opt.as_mut().unwrap();
                 let _ = io.ws.send(repe::tokio_tungstenite::tungstenite::Message::Close(None)).await;
@@ -332,12 +342,18 @@ where
     if sc.phase == Phase::InlineRunning {
         env.release(id);
     }
-    // a client that holds a backlog must read (or go away) for the server's writer to finish
-    let reader = io_opt.map(|mut io| {
+    // a client that holds a backlog must read (or go away) for the server's writer to
+    // finish — except after an embedder cancellation, which has to end the connection
+    // (disconnect hooks, registry) while the client still is not reading; there the
+    // client starts reading only after that was checked
+    let spawn_reader = |mut io: WsIo<S>| {
         tokio::spawn(async move {
             while let Ok(Ok(Some(_))) = tokio::time::timeout(Duration::from_secs(15), io.recv_raw()).await {}
         })
-    });
+    };
+    let hold_unread = sc.cause == Cause::EmbedderCancel && matches!(sc.phase, Phase::OutboundBacklog | Phase::ReaderParked);
+    let mut held = if hold_unread { io_opt.take() } else { None };
+    let mut reader = io_opt.map(spawn_reader);
 
     // --- the disconnect callback runs, exactly once
     let (e, i) = (env.clone(), id);
@@ -355,6 +371,9 @@ where
         peers.get(PeerId(id)).is_some(),
         peers.get_by(alias_of(id).as_str()).is_some()
     );
+    if let Some(io) = held.take() {
+        reader = Some(spawn_reader(io));
+    }
     if sc.phase == Phase::OffReaderParked {
         let (e, i) = (env.clone(), id);
         let ok = tokio::task::spawn_blocking(move || e.wait_set(&e.off_cancel_seen, i, watchdog())).await.unwrap();
@@ -539,6 +558,66 @@ pub fn check_connect_panic(c: &PanicCase) -> CheckResult {
     Ok(CaseInfo::new(true).class(if c.second { "cause=ConnectPanicSecond" } else { "cause=ConnectPanicFirst" }).class(format!("{:?}", c.entry)))
 }
 
+// ---------------------------------------------- cancellation around the connect hooks
+
+/// Embedder cancellation that lands before, during or right after the connect
+/// callbacks (`delay_us` after `serve_connection_with_cancel` was started; 0 = the
+/// token is already cancelled when serving starts). The lifecycle stays paired: the
+/// connect callbacks ran once, the disconnect callback runs once, the registry ends
+/// up empty.
+#[derive(Debug, Clone, Serialize, Deserialize, Hash, PartialEq, Eq)]
+pub struct EarlyCancel {
+    pub delay_us: u16,
+}
+
+pub fn check_cancel_early(c: &EarlyCancel) -> CheckResult {
+    let env = Arc::new(Env::default());
+    let peers = PeerRegistry::new();
+    let shared = build_server(env.clone(), peers.clone()).into_shared();
+    let delay = c.delay_us;
+    block_on(async move {
+        let (client_half, server_half) = tokio::io::duplex(1 << 16);
+        let ws = shared.adopt_upgraded(server_half).await;
+        let token = ShutdownToken::new();
+        if delay == 0 {
+            token.cancel();
+        }
+        let (sh, tok) = (shared.clone(), token.clone());
+        let h = tokio::spawn(async move { sh.serve_connection_with_cancel(ws, &tok).await });
+        let cws = WebSocketStream::from_raw_socket(client_half, Role::Client, None).await;
+        let mut io = WsIo::new(cws);
+        if delay > 0 {
+            tokio::time::sleep(Duration::from_micros(delay as u64)).await;
+            token.cancel();
+        }
+        // the client reads whatever arrives until the server is done
+        let reader = tokio::spawn(async move { while let Ok(Ok(Some(_))) = tokio::time::timeout(Duration::from_secs(15), io.recv_raw()).await {} });
+        let r = tokio::time::timeout(watchdog(), h).await;
+        reader.abort();
+        ensure!(r.is_ok(), "connection-future-hangs", "serve_connection_with_cancel did not return {:?} after the cancellation", watchdog());
+        Ok::<(), Fail>(())
+    })?;
+    let connects = env.connects.lock().unwrap().clone();
+    let disconnects: Vec<(u64, usize)> = env.disconnects.lock().unwrap().iter().map(|(k, v)| (*k, *v)).collect();
+    ensure!(
+        disconnects.len() == 1 && disconnects[0].1 == 1,
+        if disconnects.is_empty() { "disconnect-hook-missing" } else { "disconnect-hook-repeated" },
+        "cancellation {} us after serving started: disconnect callbacks ran as {disconnects:?} (connect callbacks for {connects:?})",
+        c.delay_us
+    );
+    ensure!(
+        connects == vec![disconnects[0].0],
+        "disconnect-without-connect",
+        "cancellation {} us after serving started: the disconnect callback ran for peer {} but the connect callbacks ran for {connects:?}",
+        c.delay_us,
+        disconnects[0].0
+    );
+    ensure!(peers.is_empty(), "registry-not-empty", "{} peers remain registered after the cancelled connection ended", peers.len());
+    let problems = env.problems.lock().unwrap().clone();
+    ensure!(problems.is_empty(), "peer-missing-while-connected", "{}", problems.join("; "));
+    Ok(CaseInfo::new(true).class(if c.delay_us == 0 { "cancelled-before-serving" } else { "cancelled-around-connect" }))
+}
+
 // -------------------------------------- handshake failures and graceful drain
 
 #[derive(Debug, Clone, Serialize, Deserialize, Hash, PartialEq, Eq)]
@@ -656,7 +735,7 @@ const CAUSES: [Cause; 8] = [
     Cause::InlinePanic,
     Cause::EmbedderCancel,
 ];
-const PHASES: [Phase; 4] = [Phase::Idle, Phase::InlineRunning, Phase::OffReaderParked, Phase::OutboundBacklog];
+const PHASES: [Phase; 5] = [Phase::Idle, Phase::InlineRunning, Phase::OffReaderParked, Phase::OutboundBacklog, Phase::ReaderParked];
 
 fn valid(entry: Entry, s: &Scenario) -> bool {
     // embedder cancellation needs the with_cancel entry point; an inline handler that
@@ -720,6 +799,9 @@ pub fn run(ctx: &Ctx, rep: &Report) {
         .flat_map(|entry| [false, true].into_iter().map(move |second| PanicCase { second, entry }))
         .collect();
     run_enum(ctx, rep, "connect-panic", &panics, true, &check_connect_panic);
+    let early: Vec<EarlyCancel> = [0u16, 0, 1, 5, 20, 50, 100, 200, 400, 800, 1500, 3000].into_iter().map(|delay_us| EarlyCancel { delay_us }).collect();
+    run_enum(ctx, rep, "cancel-early", &early, false, &check_cancel_early);
+    run_prop(ctx, rep, "cancel-early", ctx.tier.pick(60, 1_500), &|| (0u16..2000).prop_map(|delay_us| EarlyCancel { delay_us }).boxed(), &check_cancel_early);
     // few check threads: parked inline handlers occupy runtime workers (see `case`)
     run_prop_threads(ctx, rep, "random", ctx.tier.pick(300, 6_000), ctx.threads.min(3), &|| case(), &check);
     run_prop(
@@ -740,6 +822,7 @@ pub fn replay(sub: &str, case: &serde_json::Value) -> Result<(), Fail> {
     match sub {
         "grid" | "random" => replay_case::<Case>(case, &check),
         "connect-panic" => replay_case::<PanicCase>(case, &check_connect_panic),
+        "cancel-early" => replay_case::<EarlyCancel>(case, &check_cancel_early),
         "accept-loop" => replay_case::<LoopCase>(case, &check_accept_loop),
         _ => Err(Fail::new("replay-unknown-sub", sub.to_string())),
     }
